@@ -1145,6 +1145,11 @@ class CryptographyEngine(api.CryptographicEngine):
             b'\x90\x01P\x98<\xd2O\xb0\xd6\x96?}(\xe1\x7fr'
         """
         if derivation_method == enums.DerivationMethod.ENCRYPT:
+            if derivation_data is None:
+                raise exceptions.InvalidField(
+                    "For encryption-based key derivation, derivation data "
+                    "must be specified."
+                )
             result = self.encrypt(
                 encryption_algorithm=encryption_algorithm,
                 encryption_key=key_material,
@@ -1171,6 +1176,18 @@ class CryptographyEngine(api.CryptographicEngine):
                 )
 
             if derivation_method == enums.DerivationMethod.HMAC:
+                if key_material is None:
+                    raise exceptions.InvalidField(
+                        "For HMAC-based key derivation, key material must be "
+                        "specified."
+                    )
+                if derivation_length > 255 * hashing_algorithm.digest_size:
+                    raise exceptions.InvalidField(
+                        "For HMAC-based key derivation, the derivation length "
+                        "cannot exceed 255 times the digest size of the "
+                        "hashing algorithm."
+                    )
+
                 df = hkdf.HKDF(
                     algorithm=hashing_algorithm(),
                     length=derivation_length,
@@ -1213,6 +1230,16 @@ class CryptographyEngine(api.CryptographicEngine):
                         "For PBKDF2 key derivation, iteration count must be "
                         "specified."
                     )
+                if iteration_count < 1:
+                    raise exceptions.InvalidField(
+                        "For PBKDF2 key derivation, iteration count must be "
+                        "greater than zero."
+                    )
+                if key_material is None:
+                    raise exceptions.InvalidField(
+                        "For PBKDF2 key derivation, key material must be "
+                        "specified."
+                    )
 
                 df = pbkdf2.PBKDF2HMAC(
                     algorithm=hashing_algorithm(),
@@ -1224,6 +1251,17 @@ class CryptographyEngine(api.CryptographicEngine):
                 derived_data = df.derive(key_material)
                 return derived_data
             elif derivation_method == enums.DerivationMethod.NIST800_108_C:
+                if derivation_data is None:
+                    raise exceptions.InvalidField(
+                        "For NIST 800-108 counter mode key derivation, "
+                        "derivation data must be specified."
+                    )
+                if key_material is None:
+                    raise exceptions.InvalidField(
+                        "For NIST 800-108 counter mode key derivation, key "
+                        "material must be specified."
+                    )
+
                 df = kbkdf.KBKDFHMAC(
                     algorithm=hashing_algorithm(),
                     mode=kbkdf.Mode.CounterMode,
